@@ -436,6 +436,8 @@ func runC19(seed int64, tier string, out string) {
 	probes = append(probes, genAggregateSweep(r, facts, tier)...)
 	probes = append(probes, genLoaderFuzz(r, nLoader)...)
 	probes = append(probes, genLoaderSizes(r, tier)...)
+	probes = append(probes, genFormatSweep(r, tier)...)
+	probes = append(probes, genTableFormPrograms(r, tier)...)
 	arity := genArityProbes(facts)
 	results := runProbes(append(probes, arity...), workers)
 	phase2 := genFunctionSweep(r, facts, tier, acceptedArities(results[len(probes):]))
@@ -544,7 +546,7 @@ func runC19(seed int64, tier string, out string) {
 	meta.Rule = "one evaluation = one csvq process (fresh scratch directory, 10 s wall clock, 1 GB address space) or one row of the extracted error table / one nil-error site / one exit-code trigger. " +
 		"Inputs: corpus/C19 first; file-system conditions; every command-line option x boundary values; every clause / statement kind x boundary literals (0, 1, -1, int64 min/max, 2^31, 2^63, 1e308, NULL, '', strings, 10 000-char string, booleans, datetimes); " +
 		"every name of the Functions / AggregateFunctions / AnalyticFunctions tables (extracted from the source at run time) x 0..6 arguments from the boundary set (all singletons, a cross product of pairs, random triples), aggregate / analytic / window-frame forms; " +
-		"loader fuzzing: mutated / structured / random / cross-format byte strings as CSV, TSV, FIXED, LTSV, JSON, JSONL through STDIN, files and table objects x delimiter, delimiter positions, encoding (really encoded or merely declared), no-header, allow-uneven-fields, without-null, json-query, incl. invalid option values; regular tables of 1..1000 rows around the loaders' size thresholds (150, 300/301) in CSV/TSV/LTSV/FIXED x UTF-8 / Shift_JIS / UTF-16 (kanji, half-width katakana: text that grows when decoded) x --cpu 1..16. " +
+		"loader fuzzing: mutated / structured / random / cross-format byte strings as CSV, TSV, FIXED, LTSV, JSON, JSONL through STDIN, files and table objects x delimiter, delimiter positions, encoding (really encoded or merely declared), no-header, allow-uneven-fields, without-null, json-query, incl. invalid option values; the little languages inside string arguments (FORMAT directives flag x width x precision x verb against values of every class, DATETIME_FORMAT directives, regular expressions, JSON queries); programs of two statements that reach one file through different table forms (identifier, quoted path, table objects, INLINE::, FILE::, subquery) after it was loaded / updated / locked / created; regular tables of 1..1000 rows around the loaders' size thresholds (150, 300/301) in CSV/TSV/LTSV/FIXED x UTF-8 / Shift_JIS / UTF-16 (kanji, half-width katakana: text that grows when decoded) x --cpu 1..16. " +
 		"Fixed-length correspondence: random valid-UTF-8 texts (ASCII, multi-byte, Unicode spaces, LF/CRLF/CR, empty lines, trailing CR) x strictly ascending position lists x single-line / no-header / without-null, SELECT * FROM FIXED(...) of the binary vs Model.Fixed.fixed_load. " +
 		"Pass: exit 0, or a documented status with a non-empty message; no 'Fatal Error' / panic / goroutine dump / Go fatal error, no timeout, no death by signal; SELECT * output (CSV --enclose-all or JSON) rectangular. " +
 		"distinct = distinct (arguments, stdin, files, pre-condition) inputs by SHA-1."
